@@ -66,3 +66,22 @@ Theorem C17_lagging_handler_not_gone : forall st0 b l1 e o l2 hdr t,
   RV.Api.Auth.session_check (RV.Api.Post.replay l1 st0) hdr t <> inr RV.Api.Auth.RNoSuch.
 Proof. exact RV.Api.PostProofs.lagging_check_not_gone. Qed.
 Print Assumptions C17_lagging_handler_not_gone.
+
+(* ... and with the status the bridge looks at (it gives a session up on ANY 404): every gated session route — GET messages,
+   POST message, DELETE — on a node answering from a replay of any strict prefix of the log answers a request for the id of
+   an entry still ahead of it with 500 or proxies it to the leader, never with 404 (repair of D22, /repo c0e28c0: the lagging
+   LEADER answered POST and DELETE with 404 "Session not yet seen") *)
+Theorem C17_lagging_never_404 : forall rt st0 b l1 e o l2 q h,
+  forallb RV.Api.Auth.gated rt = true ->
+  (RV.Api.Auth.st_lastproc st0 <= b)%N -> RV.Api.PostProofs.keys_below b st0 ->
+  RV.Api.PostProofs.ids_increase b (l1 ++ (e, o) :: l2) ->
+  RV.Api.Auth.q_hdr q = Some h -> h <> "" ->
+  forall r sid,
+  RV.Api.Auth.find_route (fun _ => true) RV.Api.Auth.Pub (RV.Api.Auth.q_meth q)
+     (RV.Api.Auth.sdrop (String.length RV.Api.Auth.public_prefix) (RV.Api.Auth.q_path q)) rt = Some (r, Some sid) ->
+  RV.Api.Auth.parse_uint0 sid = Some (RV.Api.Post.e_id e) ->
+  RV.Api.Auth.has_prefix RV.Api.Auth.public_prefix (RV.Api.Auth.q_path q) = true ->
+  RV.Api.Auth.dispatch_public rt (RV.Api.Post.replay l1 st0) q = RV.Api.Auth.Refused RV.Api.Auth.RNotYet 500 \/
+  RV.Api.Auth.dispatch_public rt (RV.Api.Post.replay l1 st0) q = RV.Api.Auth.Proxied.
+Proof. exact RV.Api.PostProofs.lagging_dispatch_never_404. Qed.
+Print Assumptions C17_lagging_never_404.
